@@ -528,6 +528,39 @@ func init() {
 		return &Val{T: u.typeOf(x), S: r}
 	}
 
+	// ---- byte readers: ghost field "remaining" = abstract identity of the bytes still to be read
+	remH := func(u *Unit, st *State) string { return u.heapGet(st, "G!remaining", SInt) }
+	bytesContent := func(u *Unit, v *Val) string {
+		f := u.d.fun("content!bytes", []string{arrSort(SInt, SInt), SInt}, SInt)
+		return app(f, v.Arr, v.Len)
+	}
+	models["io.ReadAll"] = func(u *Unit, st *State, x *ast.CallExpr, _ *Val, fn *types.Func) *Val {
+		u.trusted["model: io.ReadAll returns the reader's remaining bytes (content identity) and leaves it empty, or an error"] = true
+		rd := u.eval(st, x.Args[0])
+		tp := u.typeOf(x).(*types.Tuple)
+		bs := u.freshVal(st, tp.At(0).Type(), "readall")
+		errV := u.freshVal(st, tp.At(1).Type(), "readall.err")
+		h := remH(u, st)
+		st.assumeFact(tImp(tEq(errV.S, "0"), tAnd(tEq(bytesContent(u, bs), app("select", h, rd.S)), tNot(bs.Nil))))
+		u.heapSet(st, "G!remaining", SInt, app("store", h, rd.S, "0"))
+		return &Val{T: tp, Tuple: []*Val{bs, errV}}
+	}
+	models["bytes.NewReader"] = func(u *Unit, st *State, x *ast.CallExpr, _ *Val, fn *types.Func) *Val {
+		u.trusted["model: bytes.NewReader / io.NopCloser create a fresh reader over the same content"] = true
+		b := u.eval(st, x.Args[0])
+		r := u.alloc(st)
+		u.heapSet(st, "G!remaining", SInt, app("store", remH(u, st), r, bytesContent(u, b)))
+		return &Val{T: u.typeOf(x), S: r}
+	}
+	models["io.NopCloser"] = func(u *Unit, st *State, x *ast.CallExpr, _ *Val, fn *types.Func) *Val {
+		u.trusted["model: bytes.NewReader / io.NopCloser create a fresh reader over the same content"] = true
+		rd := u.eval(st, x.Args[0])
+		r := u.alloc(st)
+		h := remH(u, st)
+		u.heapSet(st, "G!remaining", SInt, app("store", h, r, app("select", h, rd.S)))
+		return &Val{T: u.typeOf(x), S: r}
+	}
+
 	// ---- context
 	models["(context.Context).Err"] = func(u *Unit, st *State, x *ast.CallExpr, recv *Val, fn *types.Func) *Val {
 		return u.freshVal(st, u.typeOf(x), "ctxerr")
